@@ -376,7 +376,13 @@ func (x *ctx) wantNodes(ids []int64) []item {
 
 // wantLines: the lines joining u to v as Lines(u, v) documents them.
 func (x *ctx) wantLines(u, v int64, canon bool) []item {
-	ls := x.m.lines(u, v)
+	return x.wantLinesOf(x.m.lines(u, v), u, canon)
+}
+
+func (x *ctx) wantLinesOf(ls []rec, u int64, canon bool) []item {
+	if len(ls) == 0 {
+		return nil
+	}
 	out := make([]item, len(ls))
 	for i, r := range ls {
 		if !x.m.ki.directed {
@@ -392,8 +398,11 @@ func (x *ctx) wantLines(u, v int64, canon bool) []item {
 
 // wantEdge: what Edge(u, v) returns (ok=false: nil).
 func (x *ctx) wantEdge(u, v int64) (item, bool) {
+	return x.wantEdgeOf(x.m.lines(u, v), u, v)
+}
+
+func (x *ctx) wantEdgeOf(ls []rec, u, v int64) (item, bool) {
 	m := x.m
-	ls := m.lines(u, v)
 	if len(ls) == 0 {
 		return item{}, false
 	}
@@ -497,12 +506,18 @@ func (x *ctx) compare(ids []int64) *vk.Failure {
 
 	// From, To
 	for _, u := range ids {
-		if f := x.checkIter(nodesView("From", s.g.From(u)).with(u), x.wantNodes(m.from(u))); f != nil {
-			return f
+		fr, isNode := m.from(u), m.has(u)
+		if it := s.g.From(u); isNode || len(fr) != 0 || it != graph.Empty {
+			if f := x.checkIter(nodesView("From", it).with(u), x.wantNodes(fr)); f != nil {
+				return f
+			}
 		}
 		if s.dir != nil {
-			if f := x.checkIter(nodesView("To", s.dir.To(u)).with(u), x.wantNodes(m.to(u))); f != nil {
-				return f
+			to := m.to(u)
+			if it := s.dir.To(u); isNode || len(to) != 0 || it != graph.Empty {
+				if f := x.checkIter(nodesView("To", it).with(u), x.wantNodes(to)); f != nil {
+					return f
+				}
 			}
 		}
 	}
@@ -519,7 +534,8 @@ func (x *ctx) compare(ids []int64) *vk.Failure {
 					return x.failf("hasedgefromto", "HasEdgeFromTo(%d,%d)=%v, model %v", u, v, got, uv)
 				}
 			}
-			want, ok := x.wantEdge(u, v)
+			ls := m.lines(u, v)
+			want, ok := x.wantEdgeOf(ls, u, v)
 			chk := func(what string, e graph.Edge) *vk.Failure {
 				if (e != nil) != ok {
 					return x.failf("edge", "%s(%d,%d) = %v, model has edge: %v", what, u, v, e, ok)
@@ -562,7 +578,7 @@ func (x *ctx) compare(ids []int64) *vk.Failure {
 					}
 				}
 				gw, gok := s.wg.Weight(u, v)
-				mw, mok, known := m.weight(u, v)
+				mw, mok, known := m.weightOf(ls, u, v)
 				if gok != mok {
 					return x.failf("weight-ok", "Weight(%d,%d) = (%v,%v), model (%v,%v)", u, v, gw, gok, mw, mok)
 				}
@@ -570,23 +586,33 @@ func (x *ctx) compare(ids []int64) *vk.Failure {
 					return x.failf("weight", "Weight(%d,%d) = (%v,%v), model (%v,%v)", u, v, gw, gok, mw, mok)
 				}
 			}
+			// graph.Empty is the documented answer when there is nothing; its
+			// (constant) behaviour is covered by Nodes() of an empty graph and by From of isolated nodes.
 			if s.mg != nil {
-				if f := x.checkIter(linesView("Lines", s.mg.Lines(u, v), false).with(u, v), x.wantLines(u, v, false)); f != nil {
-					return f
+				if it := s.mg.Lines(u, v); len(ls) != 0 || it != graph.Empty {
+					if f := x.checkIter(linesView("Lines", it, false).with(u, v), x.wantLinesOf(ls, u, false)); f != nil {
+						return f
+					}
 				}
 				if s.umg != nil {
-					if f := x.checkIter(linesView("LinesBetween", s.umg.LinesBetween(u, v), false).with(u, v), x.wantLines(u, v, false)); f != nil {
-						return f
+					if it := s.umg.LinesBetween(u, v); len(ls) != 0 || it != graph.Empty {
+						if f := x.checkIter(linesView("LinesBetween", it, false).with(u, v), x.wantLinesOf(ls, u, false)); f != nil {
+							return f
+						}
 					}
 				}
 			}
 			if s.wmg != nil {
-				if f := x.checkIter(wlinesView("WeightedLines", s.wmg.WeightedLines(u, v), false).with(u, v), x.wantLines(u, v, false)); f != nil {
-					return f
+				if it := s.wmg.WeightedLines(u, v); len(ls) != 0 || it != graph.Empty {
+					if f := x.checkIter(wlinesView("WeightedLines", it, false).with(u, v), x.wantLinesOf(ls, u, false)); f != nil {
+						return f
+					}
 				}
 				if s.wumg != nil {
-					if f := x.checkIter(wlinesView("WeightedLinesBetween", s.wumg.WeightedLinesBetween(u, v), false).with(u, v), x.wantLines(u, v, false)); f != nil {
-						return f
+					if it := s.wumg.WeightedLinesBetween(u, v); len(ls) != 0 || it != graph.Empty {
+						if f := x.checkIter(wlinesView("WeightedLinesBetween", it, false).with(u, v), x.wantLinesOf(ls, u, false)); f != nil {
+							return f
+						}
 					}
 				}
 			}
